@@ -306,4 +306,101 @@ theorem relocate_recovers_all (cfg : Cfg) (img : Image) (hash pos : List IPos) (
   rw [heq]
   exact relocateWith_complete cfg img _ pos sl thr hs ht hsep q v hq hdom hm hv
 
+/-! ## (e) non-vacuity (tests, labelled as such) -/
+
+/-- 7×7 image, black except one 3×3 bump with a strict peak (9) at (3,4) -/
+def recImg : Image := ⟨[7, 7],
+  #[0, 0, 0, 0, 0, 0, 0,
+    0, 0, 0, 0, 0, 0, 0,
+    0, 0, 0, 1, 2, 1, 0,
+    0, 0, 0, 2, 9, 2, 0,
+    0, 0, 0, 1, 2, 1, 0,
+    0, 0, 0, 0, 0, 0, 0,
+    0, 0, 0, 0, 0, 0, 0]⟩
+
+def recCfg : Cfg := { radius := [1, 1], sep := [3, 3], sr := [2, 2], pct := 64, minmass := 5 }
+
+/-- the slice around the lost source (3,3) is the whole image (slice radius 4) -/
+def recSl : Slice := ⟨[0, 0], [7, 7]⟩
+
+example : wellFormed recCfg recImg = true := by decide +kernel
+theorem rec_slice : getSlice recImg.shape (sliceRadius recCfg) [[3, 3]] = some recSl := by
+  have h : (getSlice recImg.shape (sliceRadius recCfg) [[3, 3]]).map (fun s => (s.origin, s.shape))
+      = some ([0, 0], [7, 7]) := by decide +kernel
+  cases hs : getSlice recImg.shape (sliceRadius recCfg) [[3, 3]] with
+  | none => rw [hs] at h; cases h
+  | some s =>
+    rw [hs] at h
+    cases s
+    simp only [Option.map_some, Option.some.injEq, Prod.mk.injEq] at h
+    simp only [recSl, h.1, h.2]
+example : percentileThr recImg recCfg.pct = some 2 := by decide +kernel
+example : (dilationSize recCfg).length = (maskedImage recCfg recImg recSl [[3, 3]] []).shape.length := by
+  decide +kernel
+
+/-- the peak is the only raw candidate around a source one pixel to its left, empty hash … -/
+theorem rec_raw : rawCandidates recCfg recImg recSl
+    (maskedImage recCfg recImg recSl [[3, 3]] (queryPoints recCfg [] [[3, 3]])) 2 [[3, 3]]
+      = [[3, 4]] := by decide +kernel
+
+/-- … with the mass 9 + 2 + 2 + 2 + 2 of the radius-1 disc -/
+theorem rec_mass : massAt (maskedImage recCfg recImg recSl [[3, 3]] (queryPoints recCfg [] [[3, 3]]))
+    recCfg.radius [3, 4] = some 17 := by decide +kernel
+
+/-- every hypothesis of `relocate_recovers_heaviest` holds for the peak pixel, so the theorem (not
+an evaluation of the model) says that `relocate(pos, 1)` returns it -/
+example : (relocateCandidates recCfg recImg [] [[3, 3]]).head? = some ([3, 4], 17)
+    ∧ ([3, 4], 17) ∈ relocate recCfg recImg [] [[3, 3]] 1 := by
+  have h := relocate_recovers_heaviest recCfg recImg [] [[3, 3]] recSl 2 1 (Nat.le_refl 1)
+    rec_slice (by decide +kernel) (by decide +kernel) [3, 4] 17
+    (by rw [rec_raw]; exact List.mem_singleton.mpr rfl)
+    (by
+      intro q' hq' hne
+      rw [rec_raw] at hq'
+      exact absurd (List.mem_singleton.mp hq') hne)
+    rec_mass (by decide +kernel)
+    (by
+      intro q' v' hq' hne
+      rw [rec_raw] at hq'
+      exact absurd (List.mem_singleton.mp hq') hne)
+  exact h
+/-- … and so does the evaluation of the model -/
+example : relocate recCfg recImg [] [[3, 3]] 1 = [([3, 4], 17)] := by decide +kernel
+/-- the iff of `rawCandidates_complete`, right to left, on the peak -/
+example : [3, 4] ∈ rawCandidates recCfg recImg recSl (maskedImage recCfg recImg recSl [[3, 3]] []) 2
+    [[3, 3]] := by decide +kernel
+/-- the count hypothesis of `relocate_recovers_all` with n = 1 -/
+example : ((rawCandidates recCfg recImg recSl
+    (maskedImage recCfg recImg recSl [[3, 3]] (queryPoints recCfg [] [[3, 3]])) 2 [[3, 3]]).filter
+      (massOk recCfg (maskedImage recCfg recImg recSl [[3, 3]] (queryPoints recCfg [] [[3, 3]])))).length
+    ≤ 1 := by decide +kernel
+
+/-- two equally bright maxima (9) at (3,2) and (3,4), two pixels apart (< separation 3) -/
+def tieImg : Image := ⟨[7, 7],
+  #[0, 0, 0, 0, 0, 0, 0,
+    0, 0, 0, 0, 0, 0, 0,
+    0, 0, 1, 1, 1, 0, 0,
+    0, 0, 9, 1, 9, 0, 0,
+    0, 0, 1, 1, 1, 0, 0,
+    0, 0, 0, 0, 0, 0, 0,
+    0, 0, 0, 0, 0, 0, 0]⟩
+
+/-- same slice as above (same shape, same source), threshold 1 -/
+example : percentileThr tieImg recCfg.pct = some 1 ∧ tieImg.shape = recImg.shape := by decide +kernel
+
+/-- **relocateIn_tie_witness.**  `Dominant` is sufficient, not necessary: on an intensity tie
+`drop_close` keeps the feature with the larger key `Σ posᵢ/separationᵢ` (find.py:40-51), here
+(3,4), which is returned although the equally bright raw candidate (3,2) is closer than
+separation. -/
+theorem relocateIn_tie_witness :
+    relocateWith recCfg tieImg [] [[3, 3]] = [([3, 4], 12)] ∧
+      ¬ Dominant recCfg (maskedImage recCfg tieImg recSl [[3, 3]] [])
+        (rawCandidates recCfg tieImg recSl (maskedImage recCfg tieImg recSl [[3, 3]] []) 1 [[3, 3]])
+        [3, 4] := by
+  refine ⟨by decide +kernel, ?_⟩
+  intro h
+  have h1 := h [3, 2] (by decide +kernel) (by decide) (by decide +kernel)
+  revert h1
+  decide +kernel
+
 end TrackpyV.Relocate
